@@ -793,6 +793,19 @@ impl BlockSpec {
                 sss(out_size);
                 let (mut b, o) = FileSource::<u8>::new(&path).expect("FileSource::new");
                 b.repeat(repeat_of(repeat));
+                // the source reads the file it opened: in a third of the cases the name is
+                // unlinked right after the open (the open-then-unlink idiom), and in half of
+                // those another file takes its place
+                match len % 6 {
+                    1 => {
+                        let _ = std::fs::remove_file(&path);
+                    }
+                    4 => {
+                        let _ = std::fs::remove_file(&path);
+                        let _ = std::fs::write(&path, b"an unrelated file that took the place of the one that was opened");
+                    }
+                    _ => {}
+                }
                 Built { scratch: Some(sc), sink_probe: None, name: "FileSource".into(), block: Box::new(b), ins: vec![], outs: vec![Box::new(SOut::new(o))] }
             }
             FileSourceS24 { len, repeat } => {
